@@ -37,6 +37,8 @@ def check(run):
         b4 = run.borrow("C03", only=r"flags-set-true|name:csp|bit:csp", why="$csp must set IS_CSP and FROM_DOCUMENT")
         b5 = run.borrow("C03", only=r"no-csp-probe", why="no policy is injected for documents on unsupported schemes")
         run.guard("C15.via.C03.4.unsupported-schemes", cfg, lambda: _C03.rule_unsupported(b5, F, cfg))
+        b6 = run.borrow("C03", only=r"string-payloads-verbatim", why="the injected policy is the directive as written in the rule")
+        run.guard("C15.via.C03.1.option-chain/payloads", cfg, lambda: _C03.rule_payloads(b6, F, cfg))
         run.guard("C15.via.C03.1.option-chain", cfg, lambda: (_C03.rule_chain(b4, F, cfg), _C03.rule_polarity(b4, F, cfg)))
 
 
